@@ -72,7 +72,19 @@ def _struct(cls_name, text, kwargs):
             return (mem["seq"], mem["addr"])
         if cls_name in ("Acl", "acls"):
             acl = reader.read_acl(text, platform)
-            return (acl["name"], acl["type"], [(i["kind"], i["seq"]) for i in acl["items"]])
+            items = acl["items"]
+            group_by = kwargs.get("group_by")
+            if group_by:
+                # duplicate group headings are merged by design (scope decision 4.2): entries regroup under the first one
+                seen, kept = set(), []
+                for item in items:
+                    if item["kind"] == "remark" and item["text"].startswith(group_by):
+                        if item["text"] in seen:
+                            continue
+                        seen.add(item["text"])
+                    kept.append(item)
+                return (acl["name"], acl["type"], sorted((i["kind"], i["seq"]) for i in kept))
+            return (acl["name"], acl["type"], [(i["kind"], i["seq"]) for i in items])
         if cls_name == "AceGroup":
             return [(i["kind"], i["seq"]) for i in (reader.read_item(ln, kwargs.get("type", "extended"))
                                                      for ln in text.split("\n") if ln.strip())]
